@@ -83,6 +83,39 @@ theorem internal_run_bounded (p : Params) : ∀ (ls : List Label) (s s' : Sys), 
         have h2 := internal_run_bounded p t s1 s' (fun x hx => hi x (List.mem_cons_of_mem _ hx)) h
         simp only [List.length_cons]; omega
 
+/-- A requester label (a call, a receive, a time-out or a cancellation of `CursorPosition`,
+`reportWinsize`, `Query*`, `ClipboardPop`) leaves the goroutine's pending effects and the event
+queue alone: it neither adds work nor removes any. -/
+theorem requester_keeps_work (p : Params) (s s' : Sys) (l : Label) (hi : l.internal = false)
+    (hn : ∀ q, l ≠ .input q) (h : next p s l = some (.ok s')) : work s' = work s := by
+  cases l <;> simp [Label.internal] at hi
+  case input q => exact absurd rfl (hn q)
+  all_goals (simp only [next] at h; (repeat' split at h))
+  all_goals (first | (simp at h; done) | (simp at h; subst h; rfl))
+
+/-- Any schedule without terminal input — internal moves and requester labels in any interleaving —
+contains at most `work s` internal moves: requesters can neither starve nor prolong the goroutine. -/
+theorem schedule_bounded (p : Params) : ∀ (ls : List Label) (s s' : Sys), (∀ l ∈ ls, ∀ q, l ≠ .input q) →
+    run p s ls = some s' → (ls.filter (·.internal)).length + work s' ≤ work s
+  | [], s, s', _, h => by simp [run] at h; subst h; simp
+  | l :: t, s, s', hni, h => by
+    simp only [run] at h
+    cases hn : next p s l with
+    | none => simp [hn] at h
+    | some r =>
+      cases r with
+      | error e => simp [hn] at h
+      | ok s1 =>
+        simp only [hn] at h
+        have h2 := schedule_bounded p t s1 s' (fun x hx => hni x (List.mem_cons_of_mem _ hx)) h
+        cases hi : l.internal with
+        | true =>
+          have h1 := internal_decreases p s s1 l hi hn
+          simp only [List.filter_cons, hi, if_true, List.length_cons]; omega
+        | false =>
+          have h1 := requester_keeps_work p s s1 l hi (hni l (List.mem_cons_self ..)) hn
+          simp only [List.filter_cons, hi]; simp; omega
+
 /-- Whenever effects are pending, some internal move is enabled: the goroutine is never stuck
 (queue within its capacity ≥ 1, send kinds as in the source). -/
 theorem internal_enabled (p : Params) (hq : 0 < p.qcap) (hk : Kinds.safe p.kinds) (s : Sys)
